@@ -159,6 +159,19 @@ class Ctx:
                 jobs(), _init_worker, (self.modname, quiet))
         return self._pool
 
+    def selftest_same(self, same, what):
+        """Determinism self-test of a check: the same case evaluated twice in
+        this process must give the same observation.  A difference is not a
+        harness error - the library itself may have become non-deterministic
+        (e.g. a memo keyed by a re-used object address); the exploration goes
+        on, every violation it reports is still confirmed in fresh processes,
+        and the difference is recorded in the evidence."""
+        if not same:
+            self.notes.setdefault("selftest_not_reproducible", []).append(
+                str(what)[:200])
+            sys.stderr.write("note: %s gave two different observations in "
+                             "one process\n" % (str(what)[:200],))
+
     def explore(self, fam, cases, chunk=None, nsamples=2, desc=None):
         """Run family `fam` on every case (a list); deterministic order of
         aggregation regardless of scheduling."""
